@@ -201,7 +201,8 @@ CFG = {
     "n": {"quick": 1000, "thorough": 30000},
     "exhaustive": {"quick": False, "thorough": False},
     "shrink": False,
-    "rule": "corpus (w0_no_type_field; length_by_reference_containers: hand-built minimal object streams with forward / backward referenced /Length in both file orders, cross-reference stream and hybrid; hand-built: tiny classic / garbage / two objects / identity mismatch / non-reference root / startxref out of range / no magic / "
+    "rule": "pack variants 288..449 (follow-up to seed C03_11): the object-stream header ends EXACTLY at /First (no white space after the last offset) before a member that starts with a digit (integer, real, reference), N = 1 and N > 1; "
+            "corpus (w0_no_type_field; length_by_reference_containers: hand-built minimal object streams with forward / backward referenced /Length in both file orders, cross-reference stream and hybrid; hand-built: tiny classic / garbage / two objects / identity mismatch / non-reference root / startxref out of range / no magic / "
             "no startxref / forward /Length / missing holder / minimal xref stream; smallest generated instances of the known finding) + per seed one "
             "document from the spec-side generator (Spec/Doc.lean renderHistory with one revision): 2-6 user objects with values from the C02 generator "
             "spelled by Spelling.spell (random choices), generations 0-2, some streams with random data and extra entries, /Length direct or by reference "
